@@ -95,7 +95,11 @@ func lastChain(n *nd) []*nd {
 func str8s(r *hv.Rng, n int) []*nd {
 	var out []*nd
 	for i := 0; i < n; i++ {
-		out = append(out, vec(1, r.Bytes(r.Range(1, 4))))
+		k := r.Range(1, 4)
+		if r.Chance(1, 8) { // empty name inside an otherwise consistent list
+			k = 0
+		}
+		out = append(out, vec(1, r.Bytes(k)))
 	}
 	return out
 }
